@@ -36,13 +36,17 @@ def main():
     fcst = copy.deepcopy(ifile.fcst)
     obs = copy.deepcopy(ifile.obs)
     ens = copy.deepcopy(ifile.ensemble)
+    if ens is None:
+        verif.util.error("File has no ensemble members")
     ens = np.sort(ens, axis=3)
+    # The file may lack observations: size the outputs by the ensemble
+    shape = ens.shape[0:3]
     if len(args.thresholds) > 0:
-        cdf = np.zeros([obs.shape[0], obs.shape[1], obs.shape[2], len(args.thresholds)])
+        cdf = np.zeros([shape[0], shape[1], shape[2], len(args.thresholds)])
     if len(args.quantiles) > 0:
-        x = np.zeros([obs.shape[0], obs.shape[1], obs.shape[2], len(args.quantiles)])
+        x = np.zeros([shape[0], shape[1], shape[2], len(args.quantiles)])
     if args.pit:
-        pit = np.nan * np.zeros([obs.shape[0], obs.shape[1], obs.shape[2]])
+        pit = np.nan * np.zeros([shape[0], shape[1], shape[2]])
 
     M = ens.shape[3]
 
